@@ -201,7 +201,8 @@ def opOf (op : String) (ts : List String) : Option (Nat × AllocTree) :=
   | "cnv_apply_dft" => some (cnvApplyTmp be (g "size") (g "asize") (g "bsize"), leaf (cnvApplyTmp be (g "size") (g "asize") (g "bsize")))
   | "cnv_by_const_apply" => some (cnvByConstTmp be (g "size") (g "asize") (g "bsize"), leaf (cnvByConstTmp be (g "size") (g "asize") (g "bsize")))
   -- the hal delegate of the pairwise query forwards its first two arguments swapped: the value passed as `cnv_offset` is the result size
-  | "cnv_pairwise_apply_dft" => some (cnvPairwiseQuery be (g "off") (g "size") (g "asize") (g "bsize"), leaf (cnvPairwiseQuery be (g "off") (g "size") (g "asize") (g "bsize")))
+  -- (the operation itself takes the buffer for its destination's `size` limbs)
+  | "cnv_pairwise_apply_dft" => some (cnvPairwiseQuery be (g "off") (g "size") (g "asize") (g "bsize"), leaf (cnvPairwiseTmp be (g "size") (g "asize") (g "bsize")))
   -- core
   | "lwe_encrypt_sk" => some (tbLwe n (g "size"), treeLweEncryptSk n (g "size"))
   | "lwe_decrypt" => some (tbLwe n (g "size"), treeLweDecrypt n (g "size"))
